@@ -22,6 +22,10 @@ package ledger
 //     label A can be handed state B. For such a pair the harness additionally runs the real
 //     accessor: B's genuine catchpoint file + A's label + A's blocks through
 //     ProcessStagingBalances/BuildMerkleTrie/VerifyCatchpoint/CompleteCatchup.
+// The whole comparison is done twice: on nodes that track catchpoints all the time, and on nodes
+// that go through a tracking PAUSE (tracking on for rounds 1..3, restart with tracking off, the
+// rounds in which the variants differ are flushed while tracking is off, restart with tracking
+// on after round 10): the labels produced after the pause must still separate the variants.
 // Note: the *real* labels of two different histories always differ, trivially, because the
 // label also covers the digest of block X and the blocks contain the differing transaction.
 // That is why the block digest is held fixed (A's) in the comparison.
@@ -113,110 +117,123 @@ func TestVerif_C15_b(t *testing.T) {
 	}
 	protos := ve.Pick([]string{string(c14ProtoA)}, []string{string(c14ProtoA), string(c14ProtoB)})
 	pairsChecked, collisions := 0, 0
+	type mode struct {
+		name string
+		plan c14Plan
+	}
+	// "paused": catchpoint tracking is on for rounds 1..3, the node is restarted with tracking
+	// OFF, flushes rounds 4.. (the rounds in which the variants differ) while off, and is
+	// restarted with tracking ON after round 10; the labels of the later catchpoint rounds must
+	// still tell the variants apart (the trie has to be rebuilt from the tables at the resume).
+	// (the paused nodes are file backed and really closed and re-opened: Ledger.reloadLedger keeps
+	// the catchpointTracker object, whose interval is not reset when tracking is switched off)
+	modes := []mode{{"always-on", c14Plan{}}, {"paused", c14Plan{PauseAt: 3, ResumeAt: 10, Reopen: true}}}
 	for _, pn := range protos {
-		var runs []*c15Run
-		for _, d := range defs {
-			v := c14DefaultVariant()
-			v.Rounds = rounds
-			d.mod(&v)
-			h := c14HistMixed(t, dir, "c15-"+d.name, c14ProtoA, v)
-			if pn == string(c14ProtoB) {
-				h = c14HistMixed(t, dir, "c15B-"+d.name, c14ProtoB, v)
-			}
-			n, err := c14OpenNode(h.Gen, dir, "c15n-"+pn+d.name, c14NodeCfg{Stored: true, InMem: true, NoLRU: true})
-			if err != nil {
-				t.Fatalf("harness: %v", err)
-			}
-			o, err := c14Run(n, h, c14Plan{})
-			if err != nil {
-				t.Fatalf("harness: run %s: %v", d.name, err)
-			}
-			cr := &c15Run{name: d.name, kvOnly: d.kvOnly, h: h, labels: o.Labels, fs: o.FirstStage, files: map[basics.Round][]c14Section{}, sigs: map[basics.Round]map[string]string{}}
-			for _, x := range c14SortedRounds(o.Labels) {
-				secs, err := n.catchpointFile(x)
-				if err != nil {
-					t.Fatalf("harness: file %d of %s: %v", x, d.name, err)
+		for _, md := range modes {
+			var runs []*c15Run
+			for _, d := range defs {
+				v := c14DefaultVariant()
+				v.Rounds = rounds
+				d.mod(&v)
+				h := c14HistMixed(t, dir, "c15-"+d.name, c14ProtoA, v)
+				if pn == string(c14ProtoB) {
+					h = c14HistMixed(t, dir, "c15B-"+d.name, c14ProtoB, v)
 				}
-				cr.files[x] = secs
-				if cr.sigs[x], err = c15FileSig(secs); err != nil {
+				n, err := c14OpenNode(h.Gen, dir, "c15n-"+pn+md.name+d.name, c14NodeCfg{Stored: true, InMem: md.name == "always-on", NoLRU: true})
+				if err != nil {
 					t.Fatalf("harness: %v", err)
 				}
-			}
-			n.close()
-			if len(cr.labels) < 2 {
-				t.Fatalf("harness: history %s produced %d labels", d.name, len(cr.labels))
-			}
-			runs = append(runs, cr)
-			r.Class("label/" + pn + "/" + d.name + "/" + cr.labels[c14SortedRounds(cr.labels)[0]])
-		}
-		lookback := basics.Round(c15ConsensusLookback(pn))
-		for i := 0; i < len(runs); i++ {
-			for j := 0; j < len(runs); j++ {
-				if i == j {
-					continue
+				o, err := c14Run(n, h, md.plan)
+				if err != nil {
+					t.Fatalf("harness: run %s (%s): %v", d.name, md.name, err)
 				}
-				a, b := runs[i], runs[j] // verifier holds A's label and block, is handed B's state
-				for _, x := range c14SortedRounds(a.labels) {
-					if _, ok := b.labels[x]; !ok {
+				cr := &c15Run{name: d.name, kvOnly: d.kvOnly, h: h, labels: o.Labels, fs: o.FirstStage, files: map[basics.Round][]c14Section{}, sigs: map[basics.Round]map[string]string{}}
+				for _, x := range c14SortedRounds(o.Labels) {
+					secs, err := n.catchpointFile(x)
+					if err != nil {
+						t.Fatalf("harness: file %d of %s (%s): %v; labels %v first stages %v flushes %v", x, d.name, md.name, err, o.Labels, c14SortedRounds(o.FirstStage), o.Flushes)
+					}
+					cr.files[x] = secs
+					if cr.sigs[x], err = c15FileSig(secs); err != nil {
+						t.Fatalf("harness: %v", err)
+					}
+				}
+				n.close()
+				if len(cr.labels) < ve.Pick(1, 2) || (md.name == "always-on" && len(cr.labels) < 2) {
+					t.Fatalf("harness: history %s (%s) produced %d labels", d.name, md.name, len(cr.labels))
+				}
+				runs = append(runs, cr)
+				r.Class("label/" + pn + "/" + md.name + "/" + d.name + "/" + cr.labels[c14SortedRounds(cr.labels)[0]])
+			}
+			lookback := basics.Round(c15ConsensusLookback(pn))
+			for i := 0; i < len(runs); i++ {
+				for j := 0; j < len(runs); j++ {
+					if i == j {
 						continue
 					}
-					diff := c14DiffDumps(a.sigs[x], b.sigs[x])
-					if len(diff) == 0 {
-						r.Class("same-state/" + pn)
-						continue // the differing transaction has not happened yet / left no trace
-					}
-					fb, ok := b.fs[x-lookback]
-					if !ok {
-						t.Fatalf("harness: no first stage record %d in %s", x-lookback, b.name)
-					}
-					r.Eval()
-					pairsChecked++
-					digestA := a.h.Blocks[x-1].Digest()
-					lbl := ledgercore.MakeLabel(ledgercore.MakeCatchpointLabelMakerCurrent(x, &digestA, &fb.TrieBalancesHash, fb.Totals, &fb.StateProofVerificationHash, &fb.OnlineAccountsHash, &fb.OnlineRoundParamsHash))
-					kinds := map[string]bool{}
-					for _, d := range diff {
-						kinds[d[1:3]] = true
-					}
-					var ks []string
-					for k := range kinds {
-						ks = append(ks, k)
-					}
-					sort.Strings(ks)
-					r.Class(fmt.Sprintf("pair/%s/differs-in-%v", pn, ks))
-					if lbl != a.labels[x] {
-						continue
-					}
-					collisions++
-					key := "C15:state-collision:" + a.name + "/" + b.name
-					if a.kvOnly && b.kvOnly {
-						key = "C15:kv-boundary-shift"
-					}
-					// end to end: B's genuine file under A's label with A's blocks
-					e2e := "not attempted"
-					src := func(rnd basics.Round) (bookkeeping.Block, bool) {
-						if rnd < 1 || int(rnd) > len(a.h.Blocks) {
-							return bookkeeping.Block{}, false
+					a, b := runs[i], runs[j] // verifier holds A's label and block, is handed B's state
+					for _, x := range c14SortedRounds(a.labels) {
+						if _, ok := b.labels[x]; !ok {
+							continue
 						}
-						return a.h.Blocks[rnd-1], true
-					}
-					if fn, err := c14OpenNode(a.h.Gen, dir, fmt.Sprintf("c15e2e-%s-%d-%d-%d", pn, i, j, x), c14NodeCfg{Stored: true, InMem: true, NoLRU: true}); err == nil {
-						acc, top, res := c14Stage(fn.l, a.labels[x], b.files[x], src, true)
-						if res.Err != nil {
-							e2e = fmt.Sprintf("the real accessor rejects B's file under A's label at %s: %v", res.Stage, res.Err)
-						} else if err := c14Adopt(acc, top, src); err != nil {
-							e2e = fmt.Sprintf("the real accessor verifies B's file under A's label; CompleteCatchup fails: %v", err)
-						} else {
-							e2e = "the real accessor verifies B's genuine catchpoint file under A's label and the node adopts B's state"
+						diff := c14DiffDumps(a.sigs[x], b.sigs[x])
+						if len(diff) == 0 {
+							r.Class("same-state/" + pn)
+							continue // the differing transaction has not happened yet / left no trace
 						}
-						fn.close()
+						fb, ok := b.fs[x-lookback]
+						if !ok {
+							t.Fatalf("harness: no first stage record %d in %s", x-lookback, b.name)
+						}
+						r.Eval()
+						pairsChecked++
+						digestA := a.h.Blocks[x-1].Digest()
+						lbl := ledgercore.MakeLabel(ledgercore.MakeCatchpointLabelMakerCurrent(x, &digestA, &fb.TrieBalancesHash, fb.Totals, &fb.StateProofVerificationHash, &fb.OnlineAccountsHash, &fb.OnlineRoundParamsHash))
+						kinds := map[string]bool{}
+						for _, d := range diff {
+							kinds[d[1:3]] = true
+						}
+						var ks []string
+						for k := range kinds {
+							ks = append(ks, k)
+						}
+						sort.Strings(ks)
+						r.Class(fmt.Sprintf("pair/%s/%s/differs-in-%v", pn, md.name, ks))
+						if lbl != a.labels[x] {
+							continue
+						}
+						collisions++
+						key := "C15:state-collision:" + a.name + "/" + b.name
+						if a.kvOnly && b.kvOnly {
+							key = "C15:kv-boundary-shift"
+						}
+						// end to end: B's genuine file under A's label with A's blocks
+						e2e := "not attempted"
+						src := func(rnd basics.Round) (bookkeeping.Block, bool) {
+							if rnd < 1 || int(rnd) > len(a.h.Blocks) {
+								return bookkeeping.Block{}, false
+							}
+							return a.h.Blocks[rnd-1], true
+						}
+						if fn, err := c14OpenNode(a.h.Gen, dir, fmt.Sprintf("c15e2e-%s-%s-%d-%d-%d", pn, md.name, i, j, x), c14NodeCfg{Stored: true, InMem: true, NoLRU: true}); err == nil {
+							acc, top, res := c14Stage(fn.l, a.labels[x], b.files[x], src, true)
+							if res.Err != nil {
+								e2e = fmt.Sprintf("the real accessor rejects B's file under A's label at %s: %v", res.Stage, res.Err)
+							} else if err := c14Adopt(acc, top, src); err != nil {
+								e2e = fmt.Sprintf("the real accessor verifies B's file under A's label; CompleteCatchup fails: %v", err)
+							} else {
+								e2e = "the real accessor verifies B's genuine catchpoint file under A's label and the node adopts B's state"
+							}
+							fn.close()
+						}
+						r.Report(key, fmt.Sprintf("[%s, tracking "+md.name+"] round %d: histories %q and %q reach different states (%v) but state %q yields A's label %s when combined with A's block; %s", pn, x, a.name, b.name, diff, b.name, lbl, e2e),
+							map[string]any{"engine": "c15b", "proto": pn, "a": a.name, "b": b.name, "round": x})
 					}
-					r.Report(key, fmt.Sprintf("[%s] round %d: histories %q and %q reach different states (%v) but state %q yields A's label %s when combined with A's block; %s", pn, x, a.name, b.name, diff, b.name, lbl, e2e),
-						map[string]any{"engine": "c15b", "proto": pn, "a": a.name, "b": b.name, "round": x})
 				}
 			}
 		}
 	}
-	r.Set("histories", len(defs)*len(protos))
+	r.Set("histories", len(defs)*len(protos)*len(modes))
 	r.Set("ordered_pairs_x_rounds_checked", pairsChecked)
 	r.Set("state_collisions", collisions)
 	r.Sample(map[string]any{"variants": func() []string {
